@@ -5,6 +5,7 @@ stops compiling and the check reports a broken obligation.
 -/
 import Pandora.Gen.HclYaml
 import Pandora.Model.C16
+import Pandora.Model.C16Locals
 
 namespace Pandora.Bridge.HclYaml
 open Pandora.Go Pandora.Model.C16
@@ -54,5 +55,44 @@ theorem decoder_flags :
     Gen.HclYaml.pluginNameKey = "type" := ⟨rfl, rfl, rfl, rfl, rfl⟩
 
 theorem roots : current.hclRoot = "AmmoHCL" ∧ current.cfgRoot = "AmmoConfig" := ⟨rfl, rfl⟩
+
+/-! ### locals and functions (`config/hcl.go`) -/
+
+/-- the function table of the current source: HCL name ↦ go-cty stdlib function -/
+def fns : List (String × String) := Gen.HclYaml.hclFunctions
+
+def nth (xs : List String) (i : Nat) : String := xs.getD i "?"
+
+/-- role ("acc" = locals of the previous blocks, "new" = this block's) of the map `mergeMaps` writes INTO -/
+def mergeDst : String := nth Gen.HclYaml.localsMergeArgs Gen.HclYaml.mergeMapsShape.1
+/-- role of the map whose entries are written -/
+def mergeSrc : String := nth Gen.HclYaml.localsMergeArgs Gen.HclYaml.mergeMapsShape.2.1
+/-- `mergeMaps` returns the map it wrote into -/
+def mergeReturnsDst : Bool := Gen.HclYaml.mergeMapsShape.2.2 == Gen.HclYaml.mergeMapsShape.1
+
+/-- a later definition of a local replaces an earlier one: this block's entries are written over the accumulated ones -/
+def laterWins : Bool := mergeDst == "acc" && mergeSrc == "new"
+
+/-- after the iteration the accumulator holds the merged map (it was written into, or it is reassigned from the result) -/
+def accHoldsMerged : Bool := mergeDst == "acc" || (Gen.HclYaml.localsAccReassigned && mergeReturnsDst)
+
+/-- the context of the next iteration (and of the body) is built from the merged map -/
+def ctxIsMerged : Bool :=
+  (Gen.HclYaml.localsCtxFrom == "merge-result" && mergeReturnsDst) || (Gen.HclYaml.localsCtxFrom == "acc" && accHoldsMerged)
+
+/-- `decodeLocals` / `decodeLocalBlock` / `ParseHCLFile` have the data flow of the model's `evalLocals` / `evalFile`:
+every `locals` block is evaluated under the context of the PREVIOUS blocks, its entries are written over the
+accumulated ones (later wins), the accumulated map survives, the next context and finally the body's context are built
+from it; the locals are visible as `local.<name>`; only `locals` blocks are taken out of the body. -/
+theorem locals_flow :
+    laterWins = true ∧ accHoldsMerged = true ∧ ctxIsMerged = true ∧
+    Gen.HclYaml.localsBlockCtx = "ctx" ∧ Gen.HclYaml.localBlockEvalUnder = "param" ∧
+    Gen.HclYaml.parseHclBodyCtx = "locals-ctx" ∧ Gen.HclYaml.localsRoot = "local" ∧
+    Gen.HclYaml.localsBlockTypes = ["locals"] ∧ Gen.HclYaml.localsBlockFilter = ["locals"] := by decide
+
+/-- `ParseHCLFile` still splits the body (`PartialContent`), evaluates the locals and decodes the rest with gohcl -/
+theorem parseHcl_shape :
+    "f.Body.PartialContent" ∈ Gen.HclYaml.parseHclCalls ∧ "decodeLocals" ∈ Gen.HclYaml.parseHclCalls ∧
+    "gohcl.DecodeBody" ∈ Gen.HclYaml.parseHclCalls := by decide
 
 end Pandora.Bridge.HclYaml
